@@ -1,6 +1,16 @@
-"""Additional seed inputs per class beyond the harvested corpus (filled in as drivers are built)."""
+"""Additional seed inputs per class beyond the harvested corpus: the per-layer record alphabets of mc/layers.py
+(valid composed records, incl. the SSL 2.0 3-byte-header / padded forms the composer never emits)."""
 _CACHE = {}
 
 
 def extra_seeds():
+    if _CACHE:
+        return _CACHE
+    from mc import classes, layers
+    for name, cls, recs, extra in layers.layers():
+        qn = classes.qualname(cls)
+        lst = _CACHE.setdefault(qn, [])
+        for r in recs:
+            if len(r) <= 600 and r not in lst:
+                lst.append(bytes(r))
     return _CACHE
